@@ -1,7 +1,7 @@
 (* L1 comparator for C20: the model of Model/Memo.v (generated kernels) is run
    on the operations of an observed trace and must predict every observation. *)
 From Coq Require Import ZArith List Bool String Ascii.
-From DM Require Import Run.SC20 Model.Memo Model.MemoKey.
+From DM Require Import Run.SC20 Model.Memo Model.MemoKey Model.MemoLazy.
 Import ListNotations.
 Open Scope Z_scope.
 
@@ -50,3 +50,9 @@ Definition ftab_repr (tab : list (fl * string)) (f : fl) : text :=
 Definition keytext_agrees (tab : list (fl * string)) (name : string) (c : call) (impl_text : string)
            (in_alphabet : bool) : bool :=
   text_eqb (memkey_text (ftab_repr tab) name c) (tx impl_text) && Bool.eqb (call_okb name c) in_alphabet.
+
+(* ---- lazy evaluation: what the model of _lazy_evaluation_args / _lazy_evaluation_kwargs (regenerated dispatch chain
+   k_lazy_obj, test k_lazy_test) hands to the body, and how many callables it evaluates, against what the body of the
+   implementation received (compared exactly: a rebuilt sequence is a list, dict items in the order written) ---- *)
+Definition lazy_agrees (tab : list (string * arg)) (lazy : bool) (c received : call) (forced : nat) : bool :=
+  call_eqb (lazy_call (fun_table tab) lazy c) received && Nat.eqb (lazy_call_forced lazy c) forced.
